@@ -133,5 +133,69 @@ pub fn run(ctx: &mut Ctx) {
             }
             let _ = E::of;
         }
+        // one case in three also runs the session the way the engine runs it: both replicas behind
+        // store actors, the real initiating and accepting session drivers over a byte stream, the
+        // acceptor's outcome collected exactly as `handle_connection` collects it
+        if case % 3 == 0 {
+            drivers_pass(ctx, case, &uni, &offers_a, &offers_b, backends, &scratch, case % 2 == 0);
+        }
     }
+}
+
+/// The same statement observed where the engine observes it (added after seeded change agent-C01-7,
+/// which sits in the accepting driver): final sets, mirrored counts and the empty follow-up session.
+fn drivers_pass(ctx: &mut Ctx, case: u64, uni: &Universe, offers_a: &[SignedEntry], offers_b: &[SignedEntry], backends: (Backend, Backend), scratch: &Scratch, initiator_is_a: bool) {
+    use crate::props::c10::{one_session, End, Fault};
+    use iroh_docs::actor::OpenOpts;
+    let ns = uni.ns.id();
+    let mut a = build(uni, offers_a, backends.0, scratch);
+    let mut b = build(uni, offers_b, backends.1, scratch);
+    let (a0, b0) = match (dump_model(&mut a, ns), dump_model(&mut b, ns)) {
+        (Ok(x), Ok(y)) => (x, y),
+        _ => return,
+    };
+    let join = Model::join(&a0, &b0);
+    let rt = crate::act::runtime(2);
+    rt.block_on(async {
+        let ha = crate::act::spawn(a);
+        let hb = crate::act::spawn(b);
+        if ha.open(ns, OpenOpts::default().sync()).await.is_err() || hb.open(ns, OpenOpts::default().sync()).await.is_err() {
+            ctx.harness_error("drivers pass: open failed");
+            return;
+        }
+        let detail = |extra: serde_json::Value| json!({"a0": a0.short(), "b0": b0.short(), "join": join.short(), "initiator": if initiator_is_a {"a"} else {"b"}, "through": "session drivers", "extra": extra});
+        let (hi, hacc) = if initiator_is_a { (&ha, &hb) } else { (&hb, &ha) };
+        for round in 0..2 {
+            let ends = one_session(hi, hacc, ns, Fault::None, usize::MAX, true).await;
+            ctx.count("sessions_through_the_drivers", 1);
+            if ends.alice != End::Ok || ends.bob != End::Ok {
+                ctx.violation(case, "session-error[drivers]", detail(json!({"initiator": format!("{:?}", ends.alice), "acceptor": format!("{:?}", ends.bob), "session": round})));
+                break;
+            }
+            let Some((ci, cacc)) = ends.counts else { break };
+            if ci.0 != cacc.1 || cacc.0 != ci.1 {
+                ctx.violation(case, "sent-received-counts-not-mirrored", detail(json!({"initiator": ci, "acceptor": cacc, "session": round})));
+            }
+            let (da, db) = match (crate::act::dump(&ha, ns).await, crate::act::dump(&hb, ns).await) {
+                (Ok(x), Ok(y)) => (Model::from_entries(x), Model::from_entries(y)),
+                _ => {
+                    ctx.harness_error("drivers pass: dump failed");
+                    break;
+                }
+            };
+            if da != db {
+                ctx.violation(case, "replicas-differ-after-session[drivers]", detail(json!({"a1": da.short(), "b1": db.short(), "session": round})));
+                break;
+            }
+            if da != join {
+                ctx.violation(case, "result-is-not-the-join[drivers]", detail(json!({"a1": da.short(), "session": round})));
+                break;
+            }
+            if round == 1 && (ci != (0, 0) || cacc != (0, 0)) {
+                ctx.violation(case, "follow-up-session-transferred-entries", detail(json!({"initiator": ci, "acceptor": cacc})));
+            }
+        }
+        let _ = ha.shutdown().await;
+        let _ = hb.shutdown().await;
+    });
 }
